@@ -30,13 +30,14 @@ def required(tier):
     return ["time:direct query", "time:tempo event", "time:time-signature event", "time:text event", "time:section event",
             "time:lyric event", "time:note", "time:note end", "time:star-power event", "time:track event",
             "tick_at_tempo_change", "tick_past_last_tempo", "fraction_within_1e-3_of_half_us", "segment:10-499", "segment:500+",
-            "bpm_below_1", "bpm_at_least_1e5", "directed_half_boundary"]
+            "bpm_below_1", "bpm_at_least_1e5", "directed_half_boundary", "concurrent_stage", "ambient_decimal_context_lowered"]
 
 
 def shards(tier, seed):
     n = 16 if tier == "quick" else 48
     per = 110 if tier == "quick" else 2200
     out = [{"name": f"rand-{i}", "kind": "random", "count": per} for i in range(n)]
+    out += [{"name": f"ambient-{i}", "kind": "ambient", "count": 12 if tier == "quick" else 200} for i in range(2)]
     out += [{"name": f"stress-{i}", "kind": "stress", "count": 2 if tier == "quick" else 6} for i in range(4 if tier == "quick" else 8)]
     return out
 
@@ -132,6 +133,16 @@ def check_case(rec, case: dict) -> None:
 
 def run_shard(shard, rec, tier, seed):
     harness.setup()
+    keep = mcheck.Keep()
+    if shard["kind"] == "ambient":
+        # the CALLER's ambient numeric state is not the library's to depend on: a client that lowered its decimal context
+        # (precision 6, ROUND_DOWN) must get the same timestamps
+        import decimal
+
+        ctx = decimal.getcontext()
+        ctx.prec = 6
+        ctx.rounding = decimal.ROUND_DOWN
+        rec.cls("ambient_decimal_context_lowered")
     for i in range(shard["count"]):
         rng = harness.rng_for(seed, ID, shard["name"], i)
         if shard["kind"] == "stress":
@@ -151,14 +162,22 @@ def run_shard(shard, rec, tier, seed):
             q += [0, min(hz, tm.ticks[-1] + 10**6), min(hz, tm.ticks[-1] + 1)]
             case["queries"] = sorted(set(q))
         check_case(rec, case)
+        keep.add(case)
         if i < 2:
             rec.sample({"resolution": case["truth"]["resolution"], "tempos": case["truth"]["tempos"][:6],
                         "queries": case["queries"][:8], "text_head": case["text"][:300]})
         if rec.full:
             break
+    if not rec.full:
+        mcheck.threaded_stage(rec, ("C01",), keep.cases, extra)
     harness.finish(rec)
 
 
 def replay(case, rec):
     harness.setup()
+    if case.get("concurrent"):
+        for _ in range(5):
+            mcheck.threaded_stage(rec, ("C01",), [case], extra, repeats=6)
+            if rec.violations:
+                return
     check_case(rec, case)
